@@ -21,7 +21,6 @@ CLAIMS = {
  "C18": {"design_ref": "DESIGN.md §2 C18",
   "technique": "construction-site flow (who may create a Symbol cell) + dominance in the interning arms and in Heap::free",
   "text": "Decides that every VCell::Symbol constructed outside derived impls goes directly to Heap::put/maybe_put or is a builtin's Ok value, that both interning arms do lookup -> allocate -> insert, that Heap::free removes a freed symbol's name before overwriting the cell, and that eqv decides pointers by identity. Necessary for 'same name iff eq?'; string round trips beyond the escape-introducer clause are not decided."},
-}
  "C11": {"design_ref": "DESIGN.md §2 C11",
   "technique": "None-edge classification of every token-cursor read + scanner/parser table agreement (switch/str-compare table recovery)",
   "text": "Decides the incompleteness clause and the table-agreement clauses: every handled end-of-tokens site in the parser yields parse::Error::Incomplete (ok_or / None arm), every next().unwrap() is dominated by a peek() with no intervening next(), the string/char scanners report only lex::Error::Incomplete, both front ends give Incomplete its own arm, the characters lex::scan sends to scan_simple_token and the number prefixes it produces are exactly those the handlers accept (their fall-through is panic!), and the remainder returned by parse_text starts at the next token's span.0. Scanner termination, token ordering and one-datum-per-parse are not decided."},
